@@ -37,7 +37,7 @@ from scipy import special as sps
 
 from mc import ScopeUnit, FAILED
 from mc import ref_poly as rp
-from mc.state import reset_poly_caches
+from mc.state import reset_poly_caches, reset_all
 
 from prysm import polynomials as pp
 
@@ -819,26 +819,38 @@ TH = np.array(PTS_T[:8])
 LH = np.array(_FIXED['L'][:8])
 
 
-def evaluate(cfg):
+def evaluate(cfg, dt=None):
+    """One configuration of the cache-history alphabets at the fixed history points, coordinates of dtype dt (default float64)."""
+    c = (lambda v: v) if dt is None else (lambda v: v.astype(dt))
     f = cfg[0]
     if f == 'jacobi':
-        return pp.jacobi(cfg[1], cfg[2], cfg[3], XH)
+        return pp.jacobi(cfg[1], cfg[2], cfg[3], c(XH))
+    if f == 'jacobi_seq':
+        return pp.jacobi_seq(list(range(cfg[1] + 1)), cfg[2], cfg[3], c(XH))
     if f in ('cheby1', 'cheby2', 'cheby3', 'cheby4', 'legendre'):
-        return getattr(pp, f)(cfg[1], XH)
+        return getattr(pp, f)(cfg[1], c(XH))
+    if f in ('cheby1_seq', 'cheby2_seq', 'cheby3_seq', 'cheby4_seq', 'legendre_seq', 'Qcon_seq', 'Qbfs_seq'):
+        return getattr(pp, f)(list(range(cfg[1] + 1)), c(UH if f[0] == 'Q' else XH))
     if f in ('hermite_H', 'hermite_He'):
-        return getattr(pp, f)(cfg[1], XH * 2)
+        return getattr(pp, f)(cfg[1], c(XH * 2))
     if f == 'laguerre':
-        return pp.laguerre(cfg[1], cfg[2], LH)
+        return pp.laguerre(cfg[1], cfg[2], c(LH))
     if f in ('dickson1', 'dickson2'):
-        return getattr(pp, f)(cfg[1], cfg[2], XH * 2)
+        return getattr(pp, f)(cfg[1], cfg[2], c(XH * 2))
     if f == 'zernike':
-        return pp.zernike_nm(cfg[1], cfg[2], UH, TH, norm=bool(cfg[3]))
+        return pp.zernike_nm(cfg[1], cfg[2], c(UH), c(TH), norm=bool(cfg[3]))
+    if f == 'zernike_seq':
+        nms = [(n, m) for n in range(cfg[1] + 1) for m in range(-n, n + 1, 2)]
+        return pp.zernike_nm_seq(nms, c(UH), c(TH), norm=bool(cfg[2]))
     if f == 'Qcon':
-        return pp.Qcon(cfg[1], UH)
+        return pp.Qcon(cfg[1], c(UH))
     if f == 'Qbfs':
-        return pp.Qbfs(cfg[1], UH)
+        return pp.Qbfs(cfg[1], c(UH))
     if f == 'Q2d':
-        return pp.Q2d(cfg[1], cfg[2], UH, TH)
+        return pp.Q2d(cfg[1], cfg[2], c(UH), c(TH))
+    if f == 'Q2d_seq':
+        nms = [(n, m) for m in range(-cfg[2], cfg[2] + 1) for n in range(cfg[1] + 1)]
+        return pp.Q2d_seq(nms, c(UH), c(TH))
     raise ValueError(f)
 
 
@@ -866,6 +878,38 @@ def run_cache_pair(case, seed, R):
              f'the array returned for {first} changed when {second} was evaluated')
     R.nontrivial(first != second)
     R.outcome('pair')
+
+
+def run_cache_precision(case, seed, R):
+    """history (set precision A, evaluate first) ; (set precision B, evaluate second): second must be bit-identical to its cold evaluation
+    under B (all lru caches cleared, precision B).  Coordinates are float64 ('f64') or of the configured precision ('match')."""
+    from prysm.conf import config
+    first, second, A, B, mode = case['first'], case['second'], case['A'], case['B'], case['input']
+    dta = None if mode == 'f64' else (np.float32 if A == 32 else np.float64)
+    dtb = None if mode == 'f64' else (np.float32 if B == 32 else np.float64)
+    try:
+        config.precision = B
+        reset_poly_caches()
+        cold = R.call(evaluate, second, dtb, sig=f'cache:{second[0]}:exception')
+        reset_poly_caches()
+        config.precision = A
+        out1 = R.call(evaluate, first, dta, sig=f'cache:{first[0]}:exception')
+        config.precision = B
+        warm = R.call(evaluate, second, dtb, sig=f'cache:{second[0]}:exception')
+        if cold is FAILED or warm is FAILED or out1 is FAILED:
+            return
+        ok = same_bits(cold, warm)
+        R.expect(ok, f'cache:{second[0]}:precision{B}-after:{first[0]}:precision{A}',
+                 lambda: None)
+        if not ok:
+            R.violations[-1]['msg'] = (f'{second} under config.precision={B} ({mode} coordinates) after {first} under config.precision={A} differs from its cold '
+                                       f'evaluation under {B}: dtype {np.asarray(warm).dtype} vs {np.asarray(cold).dtype}, max|diff| = '
+                                       f'{float(np.max(np.abs(np.asarray(cold, dtype=float) - np.asarray(warm, dtype=float)))) if np.shape(cold) == np.shape(warm) else "shape"}')
+        R.nontrivial()
+        R.outcome('precision')
+    finally:
+        config.precision = 64
+        reset_poly_caches()
 
 
 def all_configs(B):
@@ -981,6 +1025,15 @@ def plan(tier, seed):
     alpha += [['Q2d', n, m] for n in (0, 1, 2, 3, 4, 6) for m in (0, 1, 2, 3, -2, 4)]
     pair_cases = [{'first': a, 'second': b} for a in alpha for b in alpha]
     sweep_cases = [{'order': o, 'tier': tier} for o in ('forward', 'reverse', 'by_order')]
+    # precision as an event: a reduced alphabet with every family that owns or uses cached coefficients, scalar and sequence entry points
+    palpha = [['jacobi', 3, 0, 0], ['jacobi', N, 0.5, -0.5], ['jacobi', 5, 0, 4], ['jacobi_seq', 6, 0, 4], ['jacobi_seq', N, -0.5, 0.5],
+              ['cheby1', 5], ['cheby2', N], ['cheby3', 4], ['cheby4', N], ['legendre', 6], ['cheby2_seq', 6], ['cheby3_seq', N], ['legendre_seq', N],
+              ['zernike', 4, 0, 1], ['zernike', 6, 2, 1], ['zernike', 7, -3, 0], ['zernike', NZ, 0, 1], ['zernike_seq', 6, 1], ['zernike_seq', 5, 0],
+              ['Qcon', 3], ['Qcon', NQ], ['Qcon_seq', 6], ['Qbfs', 2], ['Qbfs', 3], ['Qbfs', NQ], ['Qbfs_seq', 5], ['Qbfs_seq', NQ],
+              ['Q2d', 3, 0], ['Q2d', N2, 0], ['Q2d', 0, 2], ['Q2d', 2, 1], ['Q2d', 4, 1], ['Q2d', 3, -2], ['Q2d', N2, M2], ['Q2d_seq', 3, 2], ['Q2d_seq', N2, 3],
+              ['hermite_H', 5], ['laguerre', 5, 0.5], ['dickson1', 5, 1]]
+    prec_cases = [{'first': a, 'second': b, 'A': A, 'B': B, 'input': mode} for a in palpha for b in palpha for A, B in ((32, 64), (64, 32))
+                  for mode in ('match', 'f64')]
     nconf = len(all_configs(bounds))
     forms = 'every order is evaluated on a 1-D, a 2-D and a 3-D float64 array, as a python scalar at every point, and on a float32 array'
     return [
@@ -1034,6 +1087,11 @@ def plan(tier, seed):
                   f'history of length 2 over a collision alphabet of {len(alpha)} configurations (same order / other alpha or beta, int vs float spelling, families sharing '
                   'the Jacobi / Q caches): EVERY ordered pair (first, second): second evaluated after first must be bit-identical to second evaluated cold, and the array '
                   'returned for first must not change', reset=reset_poly_caches),
+        ScopeUnit('cache_precision', prec_cases, run_cache_precision,
+                  f'the global config.precision as a history event: EVERY ordered pair (first, second) of a {len(palpha)}-configuration alphabet (every family that owns or uses cached '
+                  'coefficients -- recurrence_abc users incl. Chebyshev / Legendre / Zernike / Qcon, Qbfs f/g/h, Q2d F/G/abc tables -- scalar and *_seq entry points, plus uncached families) '
+                  'x (precision A, then B) in {(32,64),(64,32)} x coordinates of the configured precision or float64: second under B after first under A must be bit-identical (values and dtype) '
+                  'to second evaluated cold under B (all lru caches cleared); precision restored to 64 afterwards', reset=reset_all),
         ScopeUnit('cache_sweep', sweep_cases, run_cache_sweep,
                   f'the whole enumeration ({nconf} configurations of every cached and uncached family) evaluated cold (caches cleared before each) and warm without clearing, in '
                   'forward, reversed and order-major sequence (lru eviction included: > 512 / 1000 / 4000 distinct keys); warm == cold bit for bit', reset=reset_poly_caches, chunk=1),
